@@ -93,7 +93,18 @@ func c07AlgEntry(name string, a Algorithm) []*vNodeT {
 func c07Layer(name string, a Algorithm, feature int) (*vNodeT, []byte, *vNodeT) {
 	fp := mkFaultPlan(0)
 	pairs := c07AlgEntry(name, a)
-	switch c07Pick(name+".pextra", 3, 1) {
+	switch c07Pick(name+".pextra", 4, 1) {
+	case 3: // an application parameter whose value is (or contains) a tagged item: tags are allowed inside the protected bstr
+		l := vUint64(name + ".tl")
+		vAssume(vAnd(l > 300, l <= 1<<63-1))
+		tn := vUint64(name + ".tag")
+		vAssume(vAnd(tn > 5, tn != 55799))
+		tv := nnTag(tn, nnTstr("x", -1), vWidth(name+".tagw", tn))
+		var val *vNodeT = tv
+		if vChoose(name+".tnest", 2) == 1 {
+			val = nnArray([]*vNodeT{tv}, -1)
+		}
+		pairs = append(pairs, nnInt(0, l, vWidth(name+".tlw", l)), val)
 	case 1:
 		b := vBlob(name + ".kid")
 		pairs = append(pairs, nnInt(0, 4, vWidth(name+".kidkw", 4)), nnBstr(b, vWidth(name+".kidw", uint64(len(b)))))
